@@ -443,7 +443,9 @@ func runC17(r *ev.Run, thorough bool) int {
 	// status reports: all status-item combinations (asserted x with-time) x fragment/whole x reasons
 	for mask := 0; mask < 81; mask++ { // 3 states per item: not asserted, asserted, asserted with time
 		for _, frag := range []bool{false, true} {
-			for _, reason := range []uint64{0, 1, 11, 23, 24, 255, 256} {
+			for ri, reason := range []uint64{0, 1, 11, 23, 24, 255, 256} {
+				// reported times at the boundaries of the field: 0 (the epoch itself), 1, 256+i, 2^32, 2^64-1
+				tbase := []uint64{256, 0, 1, 1 << 32, 1<<64 - 5, 23, 24}[ri]
 				nAdm++
 				sr := bpv7.StatusReport{ReportReason: bpv7.StatusReportReason(reason),
 					RefBundle: bpv7.BundleID{SourceNode: gen.MustEID("dtn://src/"), Timestamp: bpv7.NewCreationTimestamp(1000, 7), IsFragment: frag}}
@@ -458,7 +460,7 @@ func runC17(r *ev.Run, thorough bool) int {
 					case 1:
 						sr.StatusInformation = append(sr.StatusInformation, bpv7.NewBundleStatusItem(true))
 					case 2:
-						sr.StatusInformation = append(sr.StatusInformation, bpv7.NewTimeReportingBundleStatusItem(bpv7.DtnTime(256+i)))
+						sr.StatusInformation = append(sr.StatusInformation, bpv7.NewTimeReportingBundleStatusItem(bpv7.DtnTime(tbase+uint64(i))))
 					}
 					m /= 3
 				}
